@@ -416,6 +416,25 @@ CHECKS["C16"] = dict(
     technique="Coq proof of the semantic rewrites + model-vs-SQLite correspondence + before/after execution search", design_ref="§20",
 )
 
+CHECKS["C25"] = dict(
+    category="proof",
+    text=("Coq theorems C25_walk_spec_abs / C25_paths_from_path_abs prove for every directory tree, pathspec oracle, outer specs and extensions that an "
+          "absolutely spelled path selects exactly the files with a configured extension that no outer (ancestor) ignore spec and no spec found "
+          "between the path and the file matches and that have no pruned ancestor; C25_walk_spec_rel / C25_spelling_invariance_walk prove the same "
+          "characterisation and the same selection for every relative spelling (after the repair of F8), C25_spelling_invariance_partial lifts it to "
+          "paths_from_path as a whole for spellings without `..` (x, ./x, x/, ., a//b) and C25_spelling_invariance_abs_trailing_slash for /a/b vs "
+          "/a/b/; C25_f8_witness_repaired pins the repaired defect and C25_dotdot_spelling_refuted exhibits the remaining `..` dependence (open "
+          "finding F31). The string-level model (posixpath join/normpath/abspath/relpath, os.walk with the mutated inner-spec list, "
+          "iter_intermediate_paths) is tied by exact-output correspondence with the real paths_from_path on exhaustively enumerated small trees x "
+          "ignore files x spellings x working directories x working paths in a temp dir (12k calls quick, 270k thorough); two oracles written from "
+          "the property text (same selection for every spelling; exact selection) run on the real outputs."),
+    note=("Trusted: Coq kernel/vm_compute, hand model Model/Discovery.v (tied on every call; posixpath fragments also compared exhaustively on short "
+          "strings), pathspec as tabulated oracle, lexical treatment of '..'/symlinks, ASCII lower(), harness adapters (fail-closed, canary). "
+          "'Applicable ancestor' = directories between the working path and the path (documented search area). No axioms."),
+    technique="Coq proof over string-level hand model + exhaustive small-scope correspondence on real directory trees + property oracles on real outputs",
+    design_ref="§29",
+)
+
 NOT_YET = "no check built yet in this round (planned: see DESIGN.md section for this property)"
 
 
